@@ -11,9 +11,9 @@ import walk_common as wc  # noqa: E402
 LEVEL = "proof"
 PROPS = "Walk/Props_C09.v"
 COQ_FILES = wc.COQ_FILES + ["Walk/Invariant.v", "Walk/Faults.v", "Walk/FaultProofs.v", "Walk/ConfineProofs.v",
-                            "Walk/ContainProofs.v", "Walk/Props_C09.v"]
+                            "Walk/ContainProofs.v", "Walk/LimitProofs.v", "Walk/SubdirProofs.v", "Walk/PathsProofs.v", "Walk/Props_C09.v"]
 THEOREMS = ["nonfatal_never_fails", "faults_contained", "faults_surface", "required_file_outcome",
-            "fatal_iff_traversal_fault", "scan_status_derivation"]
+            "fatal_iff_traversal_fault", "scan_status_derivation", "faults_contained_paths"]
 
 META = {
     "technique": "Coq proof over all trees carrying any number of fault annotations (walk = execution of a pure schedule; "
@@ -22,7 +22,7 @@ META = {
     "level_text": "Theorems (all trees, any combination of faults at: root stat, open-dir, k-th ReadDir, open file, stat of the open "
                   "file; ErrorOnFSErrors off, no inode limit/cancel): the scan completes without error or panic "
                   "(nonfatal_never_fails), its Extract calls are exactly those of the fault-erased tree whose path is not lost "
-                  "(faults_contained), every open/stat/extract failure is an item of the owning plugin's failed / partially-"
+                  "(faults_contained; in requested-paths mode a path that cannot be stat'ed contributes nothing and does not affect later paths: faults_contained_paths), every open/stat/extract failure is an item of the owning plugin's failed / partially-"
                   "succeeded status and every non-succeeded status has such a cause (faults_surface, required_file_outcome); "
                   "with ErrorOnFSErrors the scan succeeds iff no traversal fault is reached (fatal_iff_traversal_fault); Scan's "
                   "status is Failed iff Run returned an error (scan_status_derivation). No refutation is left: the lazy-Stat abort, the "
@@ -42,6 +42,8 @@ DEFS = [
     ("dom_idx", "bad_indices (fun w => negb (c09_domain w)) {c} 0"),
     ("base_idx", "bad_indices (fun w => negb (c09_base_domain w)) {c} 0"),
     ("fail_idx", "bad_indices (fun w => negb (c09_base_domain w) || c09_spec_on_obs w) {c} 0"),
+    ("paths_bad", "bad_indices case_spec_ok_C09_paths {c} 0"),
+    ("pathsdom_idx", "bad_indices (fun w => negb (c09_paths_domain w)) {c} 0"),
 ]
 
 
@@ -73,7 +75,8 @@ def run(ctx):
         return
     ctx.log("harness ran %d cases" % len(cases))
     res, nshards = wc.shard_eval(ctx, "C09", vfile, DEFS)
-    corr_bad, spec_bad = res["corr_bad"], res["spec_bad"]
+    corr_bad, spec_bad = res["corr_bad"], sorted(set(res["spec_bad"] + res["paths_bad"]))
+    in_pathsdom = set(res["pathsdom_idx"])
     in_dom, in_base, fails = set(res["dom_idx"]), set(res["base_idx"]), set(res["fail_idx"])
     ctx.log("corr_bad=%d spec_bad=%d in_D=%d statement_domain=%d failing_outside_D=%d shards=%d" %
             (len(corr_bad), len(spec_bad), len(in_dom), len(in_base), len(fails - in_dom), nshards))
@@ -125,6 +128,7 @@ def run(ctx):
             "outcome": wc.histogram(c["obs"]["class"] for c in cases),
             "base_trees": len({c.get("variant") for c in cases}),
             "statement_domain": len(in_base), "inside_D": len(in_dom), "rejected_by_D": len(in_base - in_dom),
+            "requested_paths_fault_oracle_domain": len(in_pathsdom), "streams": wc.histogram(c["stream"] for c in cases),
         },
         "vm_compute_cases": len(cases),
         "explanation": "fault enumeration is the input space of the correspondence (every single fault over every generated base tree"
@@ -146,6 +150,8 @@ def replay(ctx, path):
         rc, out = wc.eval_single(ctx, "C09_replay", coq_case, [
             ("model", "model_obs_d (cfg_of_case w) (w_dets w) (w_roots w)"),
             ("model_eq_impl", "case_model_ok w"),
-            ("in_D", "c09_domain w"), ("spec_on_obs", "c09_spec_on_obs w"), ("spec_ok", "case_spec_ok_C09 w")])
+            ("in_D", "c09_domain w"), ("spec_on_obs", "c09_spec_on_obs w"), ("spec_ok", "case_spec_ok_C09 w"),
+            ("paths_domain", "c09_paths_domain w"), ("paths_expected_calls", "expected_paths_faulty (cfg_of_case w) (match w_roots w with [t] => t | _ => dummy_node end)"),
+            ("paths_spec_ok", "case_spec_ok_C09_paths w")])
         print(out)
     return 0
